@@ -26,7 +26,7 @@ ANCHORS = [("leuvenmapmatching/matcher/base.py", "LatticeColumn.prune"),
            ("leuvenmapmatching/matcher/base.py", "BaseMatching._update_inner")]
 FLOORS = {"windows": 8000, "windows_with_postponed": 1500, "ne_windows_with_postponed": 200, "tie_extension_windows": 100,
           "widenings": 400, "pruned_vs_unpruned": 1500, "pruning_changed_result": 80, "wide_enough_runs": 800, "parents_checked": 8000,
-          "widening_complete_to_complete": 150}
+          "widening_complete_to_complete": 150, "ne_filter_entries_compared": 3000, "ne_filter_entries_compared_pruned": 800}
 ASSUMPTIONS = ["'plus exact ties' is read as part of the definition of the expanded set: a candidate exactly tied with an expanded one is expanded "
                "too, hence the strict clause max(postponed) < min(expanded) (validated on the unchanged tree, DESIGN.md C07)",
                "pruned-vs-unpruned and widening clauses compare first-order or second-order runs alike: only index and best probability",
@@ -127,6 +127,13 @@ def check_case(ctx, case):
             r = m2.match(tr)
             res[name] = summary(m2, r, len(tr))
             res[name]["maxc"] = max_candidates(m2)
+            if cfg["non_emitting"]:
+                v, n = monitors.ne_filter_violations(m2)
+                ctx.count("ne_filter_entries_compared", n)
+                if name == "pruned":
+                    ctx.count("ne_filter_entries_compared_pruned", n)
+                for kind, text in v[:1]:
+                    ctx.violation(f"C07:ne-filter:{kind}:{name}", case, f"[{name} run, W={w}] {text}")
         except Exception as e:
             res[name] = {"exc": repr(e)}
     for kind, where, text in mon.viol[nv0 + 3 + 0:][:0]:
